@@ -624,10 +624,67 @@ pub fn build(g: &Grammar, thorough: bool) -> Vec<Tree> {
             out.extend(deep_cuts(&label, &doc, thorough));
         }
     }
+    // the same trees with a line comment on a line of its own behind every /end that starts a line (in every file and in the
+    // flattened text alike): wherever a run begins behind an element, a line comment is the last thing in front of the directive,
+    // and wherever a run ends, a line comment is the last token of the include file
+    {
+        let commented = |text: &str| -> String {
+            let mut o = String::new();
+            for l in text.lines() {
+                o.push_str(l);
+                o.push('\n');
+                let t = l.trim_start();
+                if t.starts_with("/end ") && !t.starts_with("/end PROJECT") && !l.contains("IF_DATA") && !l.contains("A2ML") {
+                    let indent = &l[..l.len() - t.len()];
+                    o.push_str(&format!("{indent}// line comment behind {}\n", t.split_whitespace().nth(1).unwrap_or("")));
+                }
+            }
+            o
+        };
+        let stride = if thorough { 1 } else { 5 };
+        let base: Vec<Tree> = out.iter().filter(|t| !t.a2ml_include && !t.flattened.contains("IF_DATA") && (t.class.starts_with("single") || t.class.starts_with("nested") || t.class.starts_with("deep"))).step_by(stride).map(|t| Tree { label: format!("{} + a line comment behind every /end", t.label), class: format!("{}:line-comments", t.class), files: t.files.iter().map(|(n, c)| (n.clone(), commented(c))).collect(), flattened: commented(&t.flattened), includes: t.includes, a2ml_include: false }).collect();
+        out.extend(base);
+    }
+    // an include file without any token (empty, blanks and line breaks only) named at every line boundary of the main file and of
+    // the first include file, next to the real directives: nothing is added, nothing behind it may get lost
+    {
+        let stride = if thorough { 3 } else { 11 };
+        let base: Vec<Tree> = out.iter().filter(|t| !t.a2ml_include && !t.flattened.contains("IF_DATA") && t.class.starts_with("single")).step_by(stride).cloned_trees();
+        for t in base {
+            for (ei, empty) in ["", " \n\t\n  "].iter().enumerate() {
+                for fi in 0..t.files.len().min(2) {
+                    let lines: Vec<&str> = t.files[fi].1.lines().collect();
+                    for at in 1..=lines.len() {
+                        // (not in front of the version line, not behind /end PROJECT)
+                        if fi == 0 && (at >= lines.len() || at < 1) {
+                            continue;
+                        }
+                        let mut files = t.files.clone();
+                        let mut l2: Vec<String> = lines.iter().map(|x| x.to_string()).collect();
+                        l2.insert(at, "/include \"empty_file.a2l\"".to_string());
+                        files[fi].1 = l2.join("\n") + "\n";
+                        // the empty file lies next to the file that names it
+                        let dir = t.files[fi].0.rfind('/').map(|i| &t.files[fi].0[..=i]).unwrap_or("");
+                        files.push((format!("{dir}empty_file.a2l"), empty.to_string()));
+                        out.push(Tree { label: format!("{} + an include file without tokens ({}) named behind line {at} of {}", t.label, ["empty", "blanks"][ei], t.files[fi].0), class: format!("{}:empty-include", t.class), files, flattened: t.flattened.clone(), includes: t.includes, a2ml_include: false });
+                    }
+                }
+            }
+        }
+    }
     out.extend(a2ml_trees(g));
     out.extend(shared_include_trees());
     out.extend(ifdata_inner_trees(g));
     out
+}
+
+trait ClonedTrees {
+    fn cloned_trees(self) -> Vec<Tree>;
+}
+impl<'a, I: Iterator<Item = &'a Tree>> ClonedTrees for I {
+    fn cloned_trees(self) -> Vec<Tree> {
+        self.map(|t| Tree { label: t.label.clone(), class: t.class.clone(), files: t.files.clone(), flattened: t.flattened.clone(), includes: t.includes, a2ml_include: t.a2ml_include }).collect()
+    }
 }
 
 fn model_eq_modulo_a2ml(a: &a2lfile::A2lFile, b: &a2lfile::A2lFile, a2ml_include: bool) -> bool {
